@@ -117,6 +117,9 @@ class Ctx:
             for k, v in libx.FORM_COUNTS.items():
                 if v:
                     self.counters[k] = v
+            algos = sys.modules.get("vf.monitors.algos")
+            if algos is not None and algos.BENCH_RUNS[0]:
+                self.counters["runs_with_bench_mode"] = algos.BENCH_RUNS[0]
         except Exception:
             pass
         return {"prop": self.prop, "spec": self.spec, "counters": self.counters,
